@@ -313,3 +313,102 @@ Proof.
 Qed.
 
 End Bump.
+
+(* ------------------------------------------------------------------------------------------
+   Links between the abstract loop of Model/Scan.v and the reference semantics. *)
+From Verif Require Import Model.Scan Proofs.ScanProofs.
+
+Section SpecLink.
+Variable e : env.
+Variable fuel : nat.
+Variable root : node.
+
+(* one attempt of the reference semantics as an [exec] component; [bumpq p] is where a failed
+   attempt leaves Runtextpos (p itself without the shortcut) *)
+Definition bp_exec (bumpq : Z -> Z) (p : Z) : option st * Z :=
+  match attempt e fuel root p with
+  | Ok (Some s) => (Some s, p)
+  | Ok None => (@None st, bumpq p)
+  | _ => (@None st, p)
+  end.
+
+(* [Spec.find] is the naive scan over the attempts (whenever the attempts have enough fuel) *)
+Lemma bp_scan_from_naive : forall (rtl : bool) bumpq k p fuel',
+  (forall x, 0 <= x <= tlen e -> exists r, attempt e fuel root x = Ok r) ->
+  0 <= p <= tlen e ->
+  (Z.to_nat (if rtl then p else tlen e - p) < k)%nat ->
+  (Z.to_nat (if rtl then p else tlen e - p) < fuel')%nat ->
+  scan_from e fuel k root rtl p = naive_loop (tlen e) rtl (bp_exec bumpq) fuel' p.
+Proof.
+  intros rtl bumpq k. induction k as [|k IH]; intros p fuel' Hok Hp Hk Hf; [lia|].
+  destruct fuel' as [|f']; [lia|].
+  rewrite sc_naive_loop_S. cbn [scan_from]. unfold bp_exec at 1.
+  destruct (Hok p Hp) as [r Hr]. rewrite Hr. cbn [bind].
+  destruct r as [s|]; [reflexivity|]. cbn [fst].
+  unfold stoppos, bump.
+  destruct rtl.
+  - destruct (p <=? 0) eqn:E1; destruct (p =? 0) eqn:E2; try lia; [reflexivity|].
+    replace (p + -1) with (p - 1) by lia. apply IH; try assumption; lia.
+  - destruct (tlen e <=? p) eqn:E1; destruct (p =? tlen e) eqn:E2; try lia; [reflexivity|].
+    apply IH; try assumption; lia.
+Qed.
+
+Theorem bp_find_naive_scan : forall (rtl : bool) bumpq start prevlen,
+  (forall x, 0 <= x <= tlen e -> exists r, attempt e fuel root x = Ok r) ->
+  0 <= start <= tlen e ->
+  find e fuel root rtl start prevlen = naive_scan (tlen e) rtl (bp_exec bumpq) start prevlen.
+Proof.
+  intros rtl bumpq start prevlen Hok Hs.
+  pose proof (bp_scan_from_naive rtl bumpq) as L. unfold naive_loop in L.
+  unfold find, naive_scan, scan, stoppos, bump, scan_fuel.
+  destruct (prevlen =? 0) eqn:Ep; cbn [andb].
+  - destruct rtl.
+    + destruct (start =? 0) eqn:E; [reflexivity|].
+      replace (start + -1) with (start - 1) by lia.
+      apply L; try assumption; lia.
+    + destruct (start =? tlen e) eqn:E; [reflexivity|].
+      apply L; try assumption; lia.
+  - destruct rtl; apply L; try assumption; lia.
+Qed.
+
+(* (H3) holds for the real bump-along shortcut on the shapes of [bp_bump_sound]: whatever position
+   in [p, p + run] a failed attempt leaves behind *)
+Variable k : ckind.
+Variable c : Z.
+Variable ol : Z.
+Hypothesis Hltr : is_rtl ol = false.
+
+Lemma bp_run_le_avail : forall maxn p, run_len e k c ol maxn p <= Z.of_nat maxn.
+Proof.
+  induction maxn as [|m IH]; intros p; cbn [run_len]; [lia|].
+  destruct ((0 <? avail e ol p) && char_test e k c (next_char e ol p)); [|lia].
+  specialize (IH (p + dir ol)). lia.
+Qed.
+
+Theorem bp_H3 : forall o body bumpq,
+  root = NCapture o 0 (-1) body ->
+  bp_shape_g k c ol body \/ bp_shape_a k c ol body ->
+  (forall p, p <= bumpq p <= p + bp_run e k c ol p) ->
+  sc_H3 st (tlen e) false (bp_exec bumpq).
+Proof.
+  intros o body bumpq Hroot Hshape Hq p q Hp Hex.
+  unfold sc_in_text, sc_ord in *.
+  assert (Hrun : bp_run e k c ol p <= tlen e - p).
+  { unfold bp_run. pose proof (bp_run_le_avail (Z.to_nat (avail e ol p)) p) as H.
+    unfold avail in *. rewrite Hltr in *. lia. }
+  unfold bp_exec in Hex.
+  destruct (attempt e fuel root p) as [[s|]| | |] eqn:Ea; inversion Hex; subst q.
+  - specialize (Hq p). repeat split; try lia.
+    intros x Hx1 Hx2. unfold sc_fails, bp_exec.
+    assert (Hc : x = p \/ p < x) by lia. destruct Hc as [->|Hc].
+    + rewrite Ea. reflexivity.
+    + subst root. rewrite (bp_bump_sound e k c ol Hltr fuel o body p Hshape Ea x); [reflexivity | lia].
+  - repeat split; try lia. intros x Hx1 Hx2. assert (x = p) by lia. subst x.
+    unfold sc_fails, bp_exec. rewrite Ea. reflexivity.
+  - repeat split; try lia. intros x Hx1 Hx2. assert (x = p) by lia. subst x.
+    unfold sc_fails, bp_exec. rewrite Ea. reflexivity.
+  - repeat split; try lia. intros x Hx1 Hx2. assert (x = p) by lia. subst x.
+    unfold sc_fails, bp_exec. rewrite Ea. reflexivity.
+Qed.
+
+End SpecLink.
